@@ -19,16 +19,16 @@ type Thread struct {
 	Name string
 	App  bool // spawned by the scenario (not by gomavlib code)
 
-	wake   chan struct{}
-	parked bool // has published a pending operation
-	done   bool
-	fired  bool // pending operation was completed by a rendezvous partner
-	urgent bool // pending operation goes first in the canonical order once enabled
-	what   string
-	en     func() bool
-	apply  func()
+	wake    chan struct{}
+	parked  bool // has published a pending operation
+	done    bool
+	fired   bool // pending operation was completed by a rendezvous partner
+	urgent  bool // pending operation goes first in the canonical order once enabled
+	what    string
+	en      func() bool
+	apply   func()
 	exiting bool
-	panicS string // set by an apply that must panic in the thread (send on closed channel)
+	panicS  string // set by an apply that must panic in the thread (send on closed channel)
 
 	// results of the last channel operation
 	selIdx int
@@ -440,6 +440,17 @@ func LibThreadsDone() bool {
 		}
 	}
 	return true
+}
+
+// LibThreadsAliveNow names the library threads that have not ended yet.
+func LibThreadsAliveNow() []string {
+	var out []string
+	for _, t := range S.threads {
+		if !t.App && !t.done {
+			out = append(out, fmt.Sprintf("T%d(%s) at %s", t.ID, t.Name, t.what))
+		}
+	}
+	return out
 }
 
 // Await blocks until pred holds. pred must only read state that changes at scheduling points.
